@@ -160,6 +160,47 @@ def check_text(ctx, text, origin, mode):
         contextualize_report(text)
         set_source('kept = 2\nprint(kept)\n')
         call = lambda: (restore_code(), report['source']['success'])[1]       # restoring verifies what was restored
+    elif mode == 'set_source-while-a-section-is-active':
+        # in the middle of a sectioned submission the grader puts some other text in the submission's place: from then on the whole
+        # file is that text, and its lines are its own
+        from pedal.source.sections import separate_into_sections, next_section
+        report = MAIN_REPORT
+        contextualize_report('first = 1\nprint(first)\n##### Part 1\nsecond = 2\n\n##### Part 2\nthird = 3\n')
+        separate_into_sections(independent=True)
+        next_section()
+        if len(text) % 2:
+            next_section()
+        call = lambda: (set_source(text), report['source']['success'])[1]
+    elif mode == 'restore_code-after-another-text-replaced-a-section' and kind != 'giveup' and '##### Part' not in text:
+        # ... and then goes back (restore_code): the section is the current code again, with its place in the file
+        from pedal.source.sections import next_section
+        from pedal.source.source import restore_code
+        report = MAIN_REPORT
+        clear_report()
+        prefix = case.get('prefix')
+        if prefix is None:
+            prefix = case['prefix'] = SECTION_PREFIXES[len(text) % len(SECTION_PREFIXES)]
+        sec_offset = len(re.findall(r'\r\n|\r|\n', prefix))
+        kind, ref = reference('\n' + text)
+        set_source(prefix + '##### Part 1\n' + text, sections=True, independent=True)
+        next_section()
+        set_source('kept = 2\nprint(kept)\n')
+        call = lambda: (restore_code(), report['source']['success'])[1]
+    elif mode == 'restore_code-of-the-whole-file-after-a-section-was-entered' and '##### Part' not in text:
+        # the grader split the file, entered a section and then asks for the file as it was before the split
+        from pedal.source.sections import next_section
+        from pedal.source.source import restore_code
+        report = MAIN_REPORT
+        clear_report()
+        prefix = case.get('prefix')
+        if prefix is None:
+            prefix = case['prefix'] = SECTION_PREFIXES[len(text) % len(SECTION_PREFIXES)]
+        contextualize_report('first = 1\n')
+        set_source(prefix + '##### Part 1\n' + text, sections=True, independent=True)
+        next_section()
+        text = prefix + '##### Part 1\n' + text          # (what is verified, and stored, is the whole file)
+        kind, ref = reference(text)
+        call = lambda: (restore_code(), report['source']['success'])[1]
     elif mode == 'verify-after-the-submission-was-replaced':
         # one report, a first (valid, verified) submission, then another one attached without clearing
         report = MAIN_REPORT
@@ -227,7 +268,7 @@ def check_text(ctx, text, origin, mode):
             if lineno is not None:
                 got = getattr(fb.location, 'line', None)
                 if got != lineno + sec_offset:
-                    ctx.violation('C12|wrong-line|%s%s' % (cls, '|in-section' if mode == 'section' else ''), case,
+                    ctx.violation('C12|wrong-line|%s%s' % (cls, '|in-section' if mode == 'section' else '|' + mode if 'section' in mode else ''), case,
                                   'CPython lineno %r (+%d lines before the section), feedback line %r' % (lineno, sec_offset, got))
                 ctx.count('lines_compared')
             else:
@@ -245,7 +286,7 @@ def check_text(ctx, text, origin, mode):
         if syn_cat or syn:
             ctx.violation('C12|spurious-syntax-error', case, [(f.label, f.message[:200]) for f in syn_cat + syn])
         is_blank = text.strip() == ''
-        if mode == 'section':
+        if mode == 'section' or mode.startswith('restore_code-after-another-text'):
             pass
         elif is_blank and not blank:
             ctx.violation('C12|blank-not-reported', case, [f.label for f in report.feedback])
@@ -291,7 +332,8 @@ def make_formatter(name, report):
 
 
 MODES = ['verify', 'verify', 'set_source', 'private', 'section', 'set_source-other-filename', 'verify-given-code-and-filename',
-         'verify-after-substitution-restored', 'verify-after-the-submission-was-replaced', 'contextualize-under-another-filename', 'verify-again-after-other-text-failed', 'verify-given-code-while-a-section-is-active']
+         'verify-after-substitution-restored', 'verify-after-the-submission-was-replaced', 'contextualize-under-another-filename', 'verify-again-after-other-text-failed', 'verify-given-code-while-a-section-is-active',
+         'set_source-while-a-section-is-active', 'restore_code-after-another-text-replaced-a-section', 'restore_code-of-the-whole-file-after-a-section-was-entered']
 SECTION_PREFIXES = ['a = 1\rb = 2\n', 'a = 1\r\nb = 2\r\n', 'x = 1\r\r\ny = 2\n', '', 'a = 1\n', 'a = 1\nb = 2\n\n', '# page\x0cbreak\nx = "\x0c"\n', 'import math\n\n\n\n',
                     's = "\u2028"\nt = "\x1c\x1d"\n', '\n\n', 'def f():\n    return 1\n']
 
@@ -305,7 +347,7 @@ def run(ctx):
     repo = os.path.realpath(os.environ.get('VERIF_REPO', '/repo'))
     if ctx.shard == 0:
         for t in HOSTILE:
-            for mode in ('verify', 'set_source', 'private', 'section') + (('set_source-other-filename', 'verify-given-code-and-filename', 'verify-after-substitution-restored', 'verify-after-the-submission-was-replaced', 'contextualize-under-another-filename', 'verify-again-after-other-text-failed', 'verify-given-code-while-a-section-is-active') if len(t) < 5000 else ()):
+            for mode in ('verify', 'set_source', 'private', 'section') + (('set_source-other-filename', 'verify-given-code-and-filename', 'verify-after-substitution-restored', 'verify-after-the-submission-was-replaced', 'contextualize-under-another-filename', 'verify-again-after-other-text-failed', 'verify-given-code-while-a-section-is-active', 'set_source-while-a-section-is-active', 'restore_code-after-another-text-replaced-a-section', 'restore_code-of-the-whole-file-after-a-section-was-entered') if len(t) < 5000 else ()):
                 check_text(ctx, t, 'hostile', mode)
         # NUL / CR / FF / BOM inserted at every position of a short program
         base = 'x = 1\nif x:\n    print("a")\n'
